@@ -84,10 +84,10 @@ func vsj(vs []*conntypes.Version) []any {
 	return out
 }
 
-func famVersions(r *hx.Rng, o *hx.Out) {
+func famVersions(r *hx.Rng, o *hx.Out, part int) {
 	n := hx.N(250, 8000)
 	compat := conntypes.GetCompatibleVersions()
-	for i := 0; i < n; i++ {
+	for i := 0; part == 0 && i < n; i++ {
 		sup := genVersions(r)
 		cp := genVersions(r)
 		tag := "random"
@@ -122,7 +122,7 @@ func famVersions(r *hx.Rng, o *hx.Out) {
 		}
 		o.Emit("pick_version", []any{vsj(sup), vsj(cp)}, res, tag)
 	}
-	for i := 0; i < n; i++ {
+	for i := 0; part == 1 && i < n; i++ {
 		sup := genVersions(r)
 		tag := "random"
 		if r.Chance(1, 3) {
@@ -151,7 +151,7 @@ func famVersions(r *hx.Rng, o *hx.Out) {
 		}
 		o.Emit("is_supported", []any{vsj(sup), vj(p)}, []any{conntypes.IsSupportedVersion(sup, p), fres}, tag)
 	}
-	for i := 0; i < n; i++ {
+	for i := 0; part == 2 && i < n; i++ {
 		v := genVersion(r)
 		p := genVersion(r)
 		tag := "random"
@@ -173,7 +173,7 @@ func famVersions(r *hx.Rng, o *hx.Out) {
 			[]any{v.VerifyProposedVersion(p) == nil, conntypes.VerifySupportedFeature(v, f),
 				strs(conntypes.GetFeatureSetIntersection(v.Features, p.Features))}, tag)
 	}
-	for i := 0; i < n; i++ {
+	for i := 0; part == 3 && i < n; i++ {
 		v := genVersion(r)
 		tag := "random"
 		switch r.Intn(6) {
